@@ -129,6 +129,17 @@ let parse_case id main files stddir =
   | FrontModel.PErr -> Printf.printf "parse %s err\n" id
   | FrontModel.PFuel -> Printf.printf "parse %s fuel\n" id
 
+let emit_case id main files stddir =
+  match FrontModel.parse_main (env_of files stddir) (bytes_of_hex main) with
+  | FrontModel.POk (body, _, _) ->
+      let b = (match BashConv.emit_bash body with
+               | Transpile.TOk (script, _) -> "ok:" ^ hex_of_bytes script
+               | Transpile.TErr -> "err"
+               | Transpile.TPanic -> "panic") in
+      Printf.printf "emit %s bash=%s\n" id b
+  | FrontModel.PErr -> Printf.printf "emit %s bash=err\n" id
+  | FrontModel.PFuel -> Printf.printf "emit %s bash=fuel\n" id
+
 let () =
   try
     while true do
@@ -138,6 +149,7 @@ let () =
       | ["lex"; id] -> lex_case id ""
       | ["tsh"; id; argv; fs; infile; rb; rw] -> tsh_case id argv fs infile rb rw
       | ["parse"; id; main; files; stddir] -> parse_case id main files stddir
+      | ["emit"; id; main; files; stddir] -> emit_case id main files stddir
       | [] | [""] -> ()
       | k :: _ -> Printf.printf "unknown-case-kind %s\n" k
     done
